@@ -48,6 +48,13 @@ CaseResult runC14(const Case &c, RunCtx &ctx) {
     }
     d = diffIdentical(a, takeSnap(in.o()));
     if (!d.empty()) { r.fail("the second save changed the object: " + d); return r; }
+    {   // saving over an existing, longer file must give the same bytes: nothing of the old file may survive
+        const std::string p3 = in.path("c14_over.c3d");
+        writeBytes(p3, std::vector<uint8_t>(b1.size() + 1500, 0xEE));
+        try { in.o().write(p3); } catch (...) { Outcome e = classifyCurrentException(); r.fail("save over an existing file threw " + e.cls); return r; }
+        std::vector<uint8_t> b3; readBytes(p3, b3);
+        if (b3 != b1) { r.fail("saving over an existing longer file gives " + std::to_string(b3.size()) + " bytes instead of " + std::to_string(b1.size()) + ": bytes of the previous file survive in the output"); return r; }
+    }
     // digest for the cross-process comparison
     if (const char *out = getenv("VERIF_DIGEST_OUT")) {
         FILE *f = fopen(out, "a");
